@@ -194,12 +194,13 @@ register(
 
 register(
     "C03",
-    [vh_stage("c03", 16, 16)],
+    [vh_stage("c03", 16, 16), pinned.stage_factory("pinned_c03.json", "C03")],
     "A: parameter sweep N=1..40 x {flat, dotted, nested} x 4 bodies through the classic compiler (compile_clvm_text, no sigil) on argument trees with pairwise distinct leaves; B: random sigil-free programs from the classic subset of the generator "
     "(defun, defun-inline, defmacro templates, defconstant, defconst, if/list/qq, operators, literals) compiled by the classic compiler and run by clvmr on 5 argument trees against the reference interpreter; "
     "second oracle: the modern cl21 build of the same text returns the same value wherever both return. Non-trivial/distinct = distinct program compared on >=1 argument tree with >=2 different reference values",
     assumptions=COMMON_ASSUME + ["reference interpreter as in C01", "integer literals whose bytes spell an operator keyword are not generated: classic reads atoms untyped by design"],
     min_nontrivial=50,
+    needs=("bins",),
 )
 
 
